@@ -98,6 +98,20 @@ __CPROVER_ensures(g_del_calls == __CPROVER_old(g_del_calls) + 1 && g_del_last ==
                   g_del_at_vi == ((size_t)__CPROVER_old(g_del_calls) == g_vi ? p : __CPROVER_old(g_del_at_vi)) && !g_cand_tm_valid && !g_cand_lru_valid)
 '''
 
+CI = 'src/cache_interface.cpp'
+PRE += r'''
+/* ---- cache_interface: trigger propagation.  recorders_ = {0..nrec-1}; triggers_ (the set attached to the page being built) and the recorders' sets are recorders of insertions */
+struct cif { bool has_cache; size_t nrec; };
+int g_ci_trig_inserts; size_t g_ci_trig_last; size_t g_ri; int g_ci_rec_adds_at_ri, g_ci_rec_adds; size_t g_ci_rec_last_t;
+static void rec_add(size_t rec, size_t t) { g_ci_rec_adds++; if(rec == g_ri) { g_ci_rec_adds_at_ri++; g_ci_rec_last_t = t; } }
+static void trigs_insert(size_t t) { g_ci_trig_inserts++; g_ci_trig_last = t; }
+/* cache_module_->fetch / store */
+bool g_cm_hit; struct idset g_cm_trigs; int g_cm_fetch_calls, g_cm_store_calls; bool g_cm_fetch_wants_trigs; size_t g_cm_store_key, g_cm_store_data; struct idset const *g_cm_store_trigs; time_t g_cm_store_deadline;
+static bool cm_fetch(size_t key, struct idset *out) { g_cm_fetch_calls++; g_cm_fetch_wants_trigs = out != 0; if(!g_cm_hit) return 0; if(out) *out = g_cm_trigs; return 1; }
+static void cm_store(size_t key, size_t data, struct idset const *trigs, time_t deadline) { g_cm_store_calls++; g_cm_store_key = key; g_cm_store_data = data; g_cm_store_trigs = trigs; g_cm_store_deadline = deadline; }
+int g_at_calls; size_t g_at_last, g_at_k, g_at_at_k;     /* add_trigger recorder: how many calls, the last argument, the argument of call number g_at_k */
+#define INFTY_T ((time_t)(0x7FFFFFFFFFFFFFFFULL - 3600*24))
+'''
 functions = [
     dict(cname='mc_delete_node', file=M, locate=lit('void delete_node(pointer p)'), sig='void mc_delete_node(struct mc *self, hnd p)', self_arg='self', members=['size', 'triggers_count'],
          rewrites=[(r'lru\.erase\(p->second\.lru\)', 'lru_erase(ND(p)->lru)', 0), (r'timeout\.erase\(p->second\.timeout\)', 'timeout_erase(ND(p)->timeout)', 0),
@@ -238,6 +252,63 @@ __CPROVER_assigns(self->size, self->triggers_count, g_primary_n, g_lru_n, g_tm_n
 /* C07: raising a trigger deletes every entry attached to it -- each element of the trigger's list exactly once, in order -- and nothing else */
 __CPROVER_ensures(RI(self) && g_del_calls == (g_trig_find_res != 0 ? (int)g_trig_ln : 0) && ((g_trig_find_res != 0 && g_vi < g_trig_ln) ==> g_del_at_vi == g_tl[g_trig_l0 + g_vi]))
 '''),
+    # ---------------- cache_interface: triggers recorded while a page/frame is built (C07)
+    dict(cname='ci_deadtime', file=CI, locate=lit('time_t deadtime(int sec)'), sig='time_t ci_deadtime(int sec)', throw_ret='0',
+         rewrites=[(r'\binfty\b', 'INFTY_T', 1), (r'time\(&tmp\)', 'verif_time(&tmp)', 1)],
+         contract='/* the clock is far from the end of time_t (the wrap test `tmp+sec<tmp` itself relies on signed wrap: observation) */\n__CPROVER_requires(verif_thrown == 0 && g_now >= 0 && g_now <= (1ll << 61))\n__CPROVER_assigns(verif_thrown, g_time_calls)\n'
+                  '/* a negative timeout means "never expires"; otherwise the deadline is now + sec (no wrap: refused) */\n'
+                  '__CPROVER_ensures(sec < 0 ? (__CPROVER_return_value == INFTY_T && !verif_thrown) : (verif_thrown || __CPROVER_return_value == g_now + sec))'),
+    dict(cname='ci_add_trigger', file=CI, locate=lit('void cache_interface::add_trigger(string const &t)'), sig='void ci_add_trigger(struct cif *self, size_t t)', self_arg='self',
+         rewrites=[(r'nocache\(\)', '(!self->has_cache)', 1), (r'std::set<triggers_recorder \*>::iterator p=recorders_\.begin\(\)', 'size_t p=0', 1), (r'recorders_\.end\(\)', 'self->nrec', 1),
+                   (r'\(\*p\)->add\(t\)', 'rec_add(p, t)', 0), (r'triggers_\.insert\(t\)', 'trigs_insert(t)', 0)],
+         body_ghost='g_at_at_k = ((size_t)g_at_calls == g_at_k) ? t : g_at_at_k; g_at_last = t; g_at_calls = g_at_calls + 1;',
+         loops={0: r'''
+__CPROVER_assigns(p, g_ci_rec_adds, g_ci_rec_adds_at_ri, g_ci_rec_last_t)
+__CPROVER_loop_invariant(p <= self->nrec && g_ci_rec_adds == __CPROVER_loop_entry(g_ci_rec_adds) + (int)p && g_ci_rec_adds_at_ri == __CPROVER_loop_entry(g_ci_rec_adds_at_ri) + (g_ri < p ? 1 : 0) && (g_ri < p ==> g_ci_rec_last_t == t))
+__CPROVER_decreases(self->nrec - p)'''},
+         contract=r'''
+__CPROVER_requires(__CPROVER_r_ok(self, sizeof(*self)) && self->nrec <= 1000 && g_ci_rec_adds >= 0 && g_ci_rec_adds <= 2000000 && g_ci_rec_adds_at_ri >= 0 && g_ci_rec_adds_at_ri <= 2000 && g_ci_trig_inserts >= 0 && g_ci_trig_inserts <= 2000 && g_at_calls >= 0 && g_at_calls <= 2000)
+__CPROVER_assigns(g_ci_rec_adds, g_ci_rec_adds_at_ri, g_ci_rec_last_t, g_ci_trig_inserts, g_ci_trig_last, g_at_calls, g_at_last, g_at_at_k)
+/* the trigger is attached to the page being built AND handed to EVERY active recorder (observed at the arbitrary recorder g_ri), exactly once each */
+__CPROVER_ensures(self->has_cache ==> (g_ci_trig_inserts == __CPROVER_old(g_ci_trig_inserts) + 1 && g_ci_trig_last == t && g_ci_rec_adds == __CPROVER_old(g_ci_rec_adds) + (int)self->nrec &&
+                  (g_ri < self->nrec ? (g_ci_rec_adds_at_ri == __CPROVER_old(g_ci_rec_adds_at_ri) + 1 && g_ci_rec_last_t == t) : g_ci_rec_adds_at_ri == __CPROVER_old(g_ci_rec_adds_at_ri))))
+__CPROVER_ensures(!self->has_cache ==> (g_ci_trig_inserts == __CPROVER_old(g_ci_trig_inserts) && g_ci_rec_adds == __CPROVER_old(g_ci_rec_adds) && g_ci_rec_adds_at_ri == __CPROVER_old(g_ci_rec_adds_at_ri)))
+__CPROVER_ensures(g_at_calls == __CPROVER_old(g_at_calls) + 1 && g_at_last == t && g_at_at_k == ((size_t)__CPROVER_old(g_at_calls) == g_at_k ? t : __CPROVER_old(g_at_at_k)))
+'''),
+    dict(cname='ci_fetch', file=CI, locate=lit('bool cache_interface::fetch(string const &key,string &result,bool notriggers)'), sig='bool ci_fetch(struct cif *self, size_t key, bool notriggers)', self_arg='self',
+         rename={'add_trigger': 'ci_add_trigger'},
+         rewrites=[(r'nocache\(\)', '(!self->has_cache)', 1), (r'set<string> new_trig;', 'struct idset new_trig = {0, 0, 0};', 1), (r'cache_module_->fetch\(key,result,', 'cm_fetch(key,', 1),
+                   (r'std::set<std::string>::const_iterator p;', 'size_t p;', 1), (r'new_trig\.begin\(\)', '0', 1), (r'new_trig\.end\(\)', 'new_trig.n', 1), (r'\*p\b', 'set_elem(&new_trig, p)', 1)],
+         loops={0: r'''
+__CPROVER_assigns(p, g_ci_rec_adds, g_ci_rec_adds_at_ri, g_ci_rec_last_t, g_ci_trig_inserts, g_ci_trig_last, g_at_calls, g_at_last, g_at_at_k)
+__CPROVER_loop_invariant(p <= new_trig.n && new_trig.n == g_cm_trigs.n && new_trig.id == g_cm_trigs.id && g_at_calls == (int)p && g_ci_trig_inserts == (int)p && g_ci_rec_adds >= 0 && g_ci_rec_adds <= 1000 * (int)p && g_ci_rec_adds_at_ri == (g_ri < self->nrec ? (int)p : 0) &&
+      (g_at_k < p ==> g_at_at_k == g_cm_trigs.id[g_at_k]))
+__CPROVER_decreases(new_trig.n - p)'''},
+         contract=r'''
+__CPROVER_requires(__CPROVER_r_ok(self, sizeof(*self)) && self->nrec <= 1000 && g_cm_trigs.n <= 1000 && __CPROVER_r_ok(g_cm_trigs.id, g_cm_trigs.n * sizeof(size_t)) && g_cm_fetch_calls == 0 &&
+                   g_ci_rec_adds == 0 && g_ci_rec_adds_at_ri == 0 && g_ci_trig_inserts == 0 && g_at_calls == 0 && self->has_cache)
+__CPROVER_assigns(g_cm_fetch_calls, g_cm_fetch_wants_trigs, g_ci_rec_adds, g_ci_rec_adds_at_ri, g_ci_rec_last_t, g_ci_trig_inserts, g_ci_trig_last, g_at_calls, g_at_last, g_at_at_k)
+/* a hit on a cached frame INHERITS its triggers: every trigger the back end reports is added (to the page being built and to every recorder), in order, exactly once; a miss or notriggers adds nothing */
+__CPROVER_ensures(g_cm_fetch_calls == 1 && __CPROVER_return_value == g_cm_hit && g_cm_fetch_wants_trigs == !notriggers)
+__CPROVER_ensures((g_cm_hit && !notriggers) ? (g_at_calls == (int)g_cm_trigs.n && (g_at_k < g_cm_trigs.n ==> g_at_at_k == g_cm_trigs.id[g_at_k])) : g_at_calls == 0)
+'''),
+    dict(cname='ci_store', file=CI, locate=r'void cache_interface::store\(string const &key,string const &data,\s*set<string> const &triggers,\s*int timeout,\s*bool notriggers\)',
+         sig='void ci_store(struct cif *self, size_t key, size_t data, struct idset const *triggers, int timeout, bool notriggers)', self_arg='self', throw_ret='', throwing_callees=['ci_deadtime'],
+         rename={'add_trigger': 'ci_add_trigger', 'deadtime': 'ci_deadtime'},
+         rewrites=[(r'nocache\(\)', '(!self->has_cache)', 1), (r'std::set<std::string>::const_iterator p;', 'size_t p;', 1), (r'triggers\.begin\(\)', '0', 1), (r'triggers\.end\(\)', 'triggers->n', 1),
+                   (r'\*p\b', 'set_elem(triggers, p)', 1), (r'cache_module_->store\(key,data,triggers,deadtime\(timeout\)\);', 'time_t dl = deadtime(timeout); cm_store(key, data, triggers, dl);', 0)],
+         loops={0: r'''
+__CPROVER_assigns(p, g_ci_rec_adds, g_ci_rec_adds_at_ri, g_ci_rec_last_t, g_ci_trig_inserts, g_ci_trig_last, g_at_calls, g_at_last, g_at_at_k)
+__CPROVER_loop_invariant(p <= triggers->n && g_at_calls == (int)p && g_ci_trig_inserts == (int)p && g_ci_rec_adds >= 0 && g_ci_rec_adds <= 1000 * (int)p && g_ci_rec_adds_at_ri == (g_ri < self->nrec ? (int)p : 0) && (g_at_k < p ==> g_at_at_k == triggers->id[g_at_k]))
+__CPROVER_decreases(triggers->n - p)'''},
+         contract=r'''
+__CPROVER_requires(__CPROVER_r_ok(self, sizeof(*self)) && self->nrec <= 1000 && triggers->n <= 1000 && __CPROVER_r_ok(triggers->id, triggers->n * sizeof(size_t)) && g_cm_store_calls == 0 && verif_thrown == 0 && g_now >= 0 && g_now <= (1ll << 61) &&
+                   g_ci_rec_adds == 0 && g_ci_rec_adds_at_ri == 0 && g_ci_trig_inserts == 0 && g_at_calls == 0 && self->has_cache)
+__CPROVER_assigns(verif_thrown, g_time_calls, g_cm_store_calls, g_cm_store_key, g_cm_store_data, g_cm_store_trigs, g_cm_store_deadline, g_ci_rec_adds, g_ci_rec_adds_at_ri, g_ci_rec_last_t, g_ci_trig_inserts, g_ci_trig_last, g_at_calls, g_at_last, g_at_at_k)
+/* storing a frame makes the enclosing page depend on the frame's triggers and on the frame's own key; the back end receives exactly key, data, the trigger set and now+timeout */
+__CPROVER_ensures(!notriggers ? (g_at_calls == (int)triggers->n + 1 && g_at_last == key && (g_at_k < triggers->n ==> g_at_at_k == triggers->id[g_at_k])) : g_at_calls == 0)
+__CPROVER_ensures(!verif_thrown ==> (g_cm_store_calls == 1 && g_cm_store_key == key && g_cm_store_data == data && g_cm_store_trigs == triggers && g_cm_store_deadline == (timeout < 0 ? INFTY_T : g_now + timeout)))
+'''),
 ]
 
 SETUP = r'''
@@ -249,15 +320,26 @@ SETUP = r'''
     size_t vi; g_vi = vi; time_t nw; g_now = nw; hnd fr, nn, nt, nl; g_find_res = fr; g_new_node = nn; g_new_tm = nt; g_new_lru = nl; int pol; g_policy_on = pol != 0;
 '''
 jobs = [
-    dict(name='mc_delete_node', props=P78, enforce='mc_delete_node', harness=SETUP + 'hnd p; mc_delete_node(&c, p); VERIF_REACH;'),
-    dict(name='mc_check_limits', props=P8, enforce='mc_check_limits', replace=['mc_delete_node'], per_property=r'.', pp_chunk=8, pp_workers=14, timeout=600, harness=SETUP + 'mc_check_limits(&c); VERIF_REACH;'),
-    dict(name='mc_store', props=P78, enforce='mc_store', replace=['mc_delete_node', 'mc_check_limits', 'mc_add_trigger'], per_property=r'.', pp_chunk=8, pp_workers=14, timeout=600, harness=SETUP + r'''
+    dict(name='mc_delete_node', props=P78, replay='c07:history', replay_link=['-fno-access-control', '-L{BUILD}', '-lcppcms', '-L{BUILD}/booster', '-lbooster', '-lpthread'], replay_exhaustive='the real thread cache with limits 0,1,2,3,5 through 4000-step pseudo-random histories of store/fetch/rise/remove/clear (keys that are also trigger names, expired and live deadlines) against a reference model (map + LRU list + expired-first eviction); fetch results and key/trigger counts compared after every step', enforce='mc_delete_node', harness=SETUP + 'hnd p; mc_delete_node(&c, p); VERIF_REACH;'),
+    dict(name='mc_check_limits', props=P8, replay='c07:history', replay_link=['-fno-access-control', '-L{BUILD}', '-lcppcms', '-L{BUILD}/booster', '-lbooster', '-lpthread'], replay_exhaustive='the real thread cache with limits 0,1,2,3,5 through 4000-step pseudo-random histories of store/fetch/rise/remove/clear (keys that are also trigger names, expired and live deadlines) against a reference model (map + LRU list + expired-first eviction); fetch results and key/trigger counts compared after every step', enforce='mc_check_limits', replace=['mc_delete_node'], per_property=r'.', pp_chunk=8, pp_workers=14, timeout=600, harness=SETUP + 'mc_check_limits(&c); VERIF_REACH;'),
+    dict(name='mc_store', props=P78, replay='c07:history', replay_link=['-fno-access-control', '-L{BUILD}', '-lcppcms', '-L{BUILD}/booster', '-lbooster', '-lpthread'], replay_exhaustive='the real thread cache with limits 0,1,2,3,5 through 4000-step pseudo-random histories of store/fetch/rise/remove/clear (keys that are also trigger names, expired and live deadlines) against a reference model (map + LRU list + expired-first eviction); fetch results and key/trigger counts compared after every step', enforce='mc_store', replace=['mc_delete_node', 'mc_check_limits', 'mc_add_trigger'], per_property=r'.', pp_chunk=8, pp_workers=14, timeout=600, harness=SETUP + r'''
     struct idset ts; size_t tn; __CPROVER_assume(tn <= 1000); ts.n = tn; ts.id = malloc(tn * sizeof(size_t)); __CPROVER_assume(ts.id != NULL); int hk; ts.has_key = hk != 0;
     size_t key, a; time_t to; uint64_t gv; int gn; mc_store(&c, key, a, &ts, to, gn ? &gv : 0); VERIF_REACH;'''),
-    dict(name='mc_fetch', props=P7, enforce='mc_fetch', harness=SETUP + r'''
+    dict(name='mc_fetch', props=P7, replay='c07:history', replay_link=['-fno-access-control', '-L{BUILD}', '-lcppcms', '-L{BUILD}/booster', '-lbooster', '-lpthread'], replay_exhaustive='the real thread cache with limits 0,1,2,3,5 through 4000-step pseudo-random histories of store/fetch/rise/remove/clear (keys that are also trigger names, expired and live deadlines) against a reference model (map + LRU list + expired-first eviction); fetch results and key/trigger counts compared after every step', enforce='mc_fetch', harness=SETUP + r'''
     size_t key, av; time_t tv; uint64_t gv; int tg, n1, n2, n3, n4; mc_fetch(&c, key, n1 ? &av : 0, n2 ? &tg : 0, n3 ? &tv : 0, n4 ? &gv : 0); VERIF_REACH;'''),
-    dict(name='mc_remove', props=P7, enforce='mc_remove', replace=['mc_delete_node'], harness=SETUP + 'size_t key; mc_remove(&c, key); VERIF_REACH;'),
-    dict(name='mc_rise', props=P7, enforce='mc_rise', replace=['mc_delete_node'], per_property=r'.', pp_chunk=8, pp_workers=14, timeout=600, harness=SETUP + 'size_t t, l0, lnn; hnd tf; g_trig_find_res = tf; g_trig_l0 = l0; g_trig_ln = lnn; mc_rise(&c, t); VERIF_REACH;'),
+    dict(name='mc_remove', props=P7, replay='c07:history', replay_link=['-fno-access-control', '-L{BUILD}', '-lcppcms', '-L{BUILD}/booster', '-lbooster', '-lpthread'], replay_exhaustive='the real thread cache with limits 0,1,2,3,5 through 4000-step pseudo-random histories of store/fetch/rise/remove/clear (keys that are also trigger names, expired and live deadlines) against a reference model (map + LRU list + expired-first eviction); fetch results and key/trigger counts compared after every step', enforce='mc_remove', replace=['mc_delete_node'], harness=SETUP + 'size_t key; mc_remove(&c, key); VERIF_REACH;'),
+    dict(name='mc_rise', props=P7, replay='c07:history', replay_link=['-fno-access-control', '-L{BUILD}', '-lcppcms', '-L{BUILD}/booster', '-lbooster', '-lpthread'], replay_exhaustive='the real thread cache with limits 0,1,2,3,5 through 4000-step pseudo-random histories of store/fetch/rise/remove/clear (keys that are also trigger names, expired and live deadlines) against a reference model (map + LRU list + expired-first eviction); fetch results and key/trigger counts compared after every step', enforce='mc_rise', replace=['mc_delete_node'], per_property=r'.', pp_chunk=8, pp_workers=14, timeout=600, harness=SETUP + 'size_t t, l0, lnn; hnd tf; g_trig_find_res = tf; g_trig_l0 = l0; g_trig_ln = lnn; mc_rise(&c, t); VERIF_REACH;'),
+]
+
+CISET = r'''
+    struct cif ci; size_t nr, ri, ak; int hc; ci.nrec = nr; ci.has_cache = hc != 0; g_ri = ri; g_at_k = ak; g_ci_rec_adds = 0; g_ci_rec_adds_at_ri = 0; g_ci_trig_inserts = 0; g_at_calls = 0; g_cm_fetch_calls = 0; g_cm_store_calls = 0; verif_thrown = 0; g_time_calls = 0;
+    time_t nw; g_now = nw; struct idset ts; size_t tn; __CPROVER_assume(tn <= 1000); ts.n = tn; ts.id = malloc(tn * sizeof(size_t)); __CPROVER_assume(ts.id != NULL); ts.has_key = 0;
+'''
+jobs += [
+    dict(name='ci_deadtime', props=P7, enforce='ci_deadtime', harness='time_t nw; g_now = nw; verif_thrown = 0; g_time_calls = 0; int sec; ci_deadtime(sec); VERIF_REACH;'),
+    dict(name='ci_add_trigger', props=P7, enforce='ci_add_trigger', harness=CISET + 'size_t t; ci_add_trigger(&ci, t); VERIF_REACH;'),
+    dict(name='ci_fetch', props=P7, enforce='ci_fetch', replace=['ci_add_trigger'], harness=CISET + 'g_cm_trigs = ts; int h, nt; g_cm_hit = h != 0; size_t key; ci_fetch(&ci, key, nt != 0); VERIF_REACH;'),
+    dict(name='ci_store', props=P7, enforce='ci_store', replace=['ci_add_trigger', 'ci_deadtime'], harness=CISET + 'int nt, to; size_t key, data; ci_store(&ci, key, data, &ts, to, nt != 0); VERIF_REACH;'),
 ]
 
 UNIT = dict(
